@@ -143,9 +143,9 @@ func runCheck(id, tier string) int {
 		if j.BudgetSec == 0 {
 			// registered bounds finish well inside these budgets on the unchanged tree; a change to /repo that makes
 			// the solver crawl must not turn a check into an hour-long run: the job is then reported as not decided
-			j.BudgetSec = 300
+			j.BudgetSec = 480
 			if tier == "thorough" {
-				j.BudgetSec = 5400
+				j.BudgetSec = 7200
 			}
 		}
 		res := explore(ld, j, workers, seed+int64(i), false)
